@@ -1,1 +1,2 @@
 pub mod logsim;
+pub mod routersim;
